@@ -91,7 +91,7 @@ func pmdConfigs() []pairCfg {
 }
 
 // one direction of a session: sends ops from `from` to `to`, checks delivery, records the model case
-func e2eDirection(c *Ctx, p *e2ePair, fromServer bool, ops []sendOp, parallel bool, tag string, withCase bool, rlimit int, utf8 bool) {
+func e2eDirection(c *Ctx, p *e2ePair, fromServer bool, ops []sendOp, parallel bool, tag string, withCase bool, rlimit int, utf8 bool) (healthy bool) {
 	from, ftap, toH, to := p.cli, p.ctap, p.sh, p.srv
 	if fromServer {
 		from, ftap, toH, to = p.srv, p.stap, p.ch, p.cli
@@ -109,7 +109,7 @@ func e2eDirection(c *Ctx, p *e2ePair, fromServer bool, ops []sendOp, parallel bo
 		}
 		if res != 0 && res != 100 {
 			c.oracleFail(fmt.Sprintf("a valid send through %s failed with %d [%s]", op.API, res, tag), "valid-call-failed", map[string]any{"tag": tag, "api": op.API, "len": len(pl)})
-			return
+			return false
 		}
 		sentP = append(sentP, pl)
 		sentOp = append(sentOp, op.Opcode)
@@ -118,7 +118,26 @@ func e2eDirection(c *Ctx, p *e2ePair, fromServer bool, ops []sendOp, parallel bo
 	replay := map[string]any{"tag": tag, "sent": len(ops), "delivered": len(got)}
 	if len(got) != len(ops) {
 		c.oracleFail(fmt.Sprintf("%d messages sent, %d delivered [%s]", len(ops), len(got), tag), "message-lost-or-duplicated", replay)
-		return
+		return false
+	}
+	if parallel && from.VerifPD().Level >= 7 && cpsCap > 0 {
+		// D17 can also strike with parallel handling: a delivered payload that is dictionary bytes ++ a sent payload
+		sentSet := map[string]bool{}
+		for _, sp := range sentP {
+			sentSet[string(sp)] = true
+		}
+		for _, g := range got {
+			if sentSet[string(g.Payload)] {
+				continue
+			}
+			for _, sp := range sentP {
+				if len(g.Payload) > len(sp) && bytes.HasSuffix(g.Payload, sp) {
+					c.oracleFail(fmt.Sprintf("compression level %d with context takeover: a %d-byte message was delivered with %d dictionary bytes prepended [%s]", from.VerifPD().Level, len(sp), len(g.Payload)-len(sp), tag),
+						"flate-level7plus-dict-leak", map[string]any{"tag": tag, "level": from.VerifPD().Level})
+					return false
+				}
+			}
+		}
 	}
 	if !parallel {
 		for i := range ops {
@@ -128,7 +147,7 @@ func e2eDirection(c *Ctx, p *e2ePair, fromServer bool, ops []sendOp, parallel bo
 				// block that also contains the dictionary bytes
 				c.oracleFail(fmt.Sprintf("compression level %d with context takeover: a %d-byte incompressible message was delivered with %d dictionary bytes prepended [%s]", from.VerifPD().Level, len(sentP[i]), len(got[i].Payload)-len(sentP[i]), tag),
 					"flate-level7plus-dict-leak", map[string]any{"tag": tag, "level": from.VerifPD().Level, "sent_len": len(sentP[i]), "got_len": len(got[i].Payload)})
-				return
+				return false
 			}
 			if got[i].Opcode != sentOp[i] || !bytes.Equal(got[i].Payload, sentP[i]) {
 				var sl, gl []string
@@ -142,7 +161,7 @@ func e2eDirection(c *Ctx, p *e2ePair, fromServer bool, ops []sendOp, parallel bo
 				replay["got_hex"] = fmt.Sprintf("%x", got[i].Payload)
 				replay["cps_before_hex"] = fmt.Sprintf("%x", cpsBefore)
 				c.oracleFail(fmt.Sprintf("message %d (api %s, %d bytes) was delivered with opcode %d and %d bytes, or out of order; sent %v got %v [%s]", i, ops[i].API, len(sentP[i]), got[i].Opcode, len(got[i].Payload), sl, gl, tag), "message-differs", replay)
-				return
+				return false
 			}
 		}
 	} else {
@@ -157,7 +176,7 @@ func e2eDirection(c *Ctx, p *e2ePair, fromServer bool, ops []sendOp, parallel bo
 		for i := range a {
 			if a[i] != b[i] {
 				c.oracleFail("parallel handling: the set of delivered messages differs from the set sent ["+tag+"]", "message-differs", replay)
-				return
+				return false
 			}
 		}
 	}
@@ -166,7 +185,7 @@ func e2eDirection(c *Ctx, p *e2ePair, fromServer bool, ops []sendOp, parallel bo
 	fs, rest, perr := parseFrames(wire)
 	if perr != nil || len(rest) != 0 {
 		c.oracleFail("sender's wire is not whole frames ["+tag+"]", "outbound-malformed", replay)
-		return
+		return false
 	}
 	if withCase && len(fs) == len(ops) {
 		pd := from.VerifPD()
@@ -191,6 +210,7 @@ func e2eDirection(c *Ctx, p *e2ePair, fromServer bool, ops []sendOp, parallel bo
 		}
 		c.addCase("C01", VL{sv, VL{VZ(rl), vbool(utf8)}, VN(cpsCap), VB(cpsBefore), opl, VB(wire), eventsVal(got), VB(cpsAfter), VB(dpsAfter)}, tag)
 	}
+	return true
 }
 
 func randomOps(c *Ctx, n int, apis []string, pool *[]byte, maxLen int) []sendOp {
@@ -259,11 +279,15 @@ func runC01(c *Ctx) error {
 					// (1) buffered APIs: also replayed on the Coq model
 					tag := fmt.Sprintf("cfg=%d r=%d fromServer=%v parallel=%v pmd=%v sto=%v cto=%v sbits=%d th=%d", ci, r, fromServer, parallel, pc.sPMD.Enabled, pc.sPMD.ServerContextTakeover, pc.sPMD.ClientContextTakeover, pc.sPMD.ServerMaxWindowBits, pc.sPMD.Threshold)
 					ops := randomOps(c, 3+c.Rng.Intn(5), bufAPIs, &pool, 5000)
-					e2eDirection(c, p, fromServer, ops, parallel, tag+" buffered", !parallel, 0, pc.utf8)
+					if !e2eDirection(c, p, fromServer, ops, parallel, tag+" buffered", !parallel, 0, pc.utf8) {
+						break // the connection pair is no longer in a defined state (a violation or a known finding was reported)
+					}
 					c.count(tag+" buffered", true, fmt.Sprintf("pmd=%v", pc.sPMD.Enabled), fmt.Sprintf("parallel=%v", parallel), "apis=buffered")
 					// (2) every API, large payloads: oracle only
 					ops = randomOps(c, 3+c.Rng.Intn(4), allAPIs, &pool, 200000)
-					e2eDirection(c, p, fromServer, ops, parallel, tag+" all-apis", false, 0, pc.utf8)
+					if !e2eDirection(c, p, fromServer, ops, parallel, tag+" all-apis", false, 0, pc.utf8) {
+						break
+					}
 					c.count(tag+" all", true, "apis=all")
 				}
 				p.close()
